@@ -12,11 +12,13 @@ type Environment struct {
 	store     map[string]Object
 	Aliases   map[string]string
 	toCompact []Object
+	// modified holds the names of the attributes an update wrote to or removed
+	modified map[string]bool
 }
 
 // NewEnvironment creates a new enviroment
 func NewEnvironment() *Environment {
-	return &Environment{store: map[string]Object{}, Aliases: map[string]string{}, toCompact: []Object{}}
+	return &Environment{store: map[string]Object{}, Aliases: map[string]string{}, toCompact: []Object{}, modified: map[string]bool{}}
 }
 
 // AddAttributes adds the types attributes to the environment
@@ -27,10 +29,19 @@ func (e *Environment) AddAttributes(attributes map[string]*types.Item) error {
 			return err
 		}
 
-		e.Set(name, obj)
+		// loading an attribute is not a modification
+		e.store[e.resolveName(name)] = obj
 	}
 
 	return nil
+}
+
+func (e *Environment) resolveName(name string) string {
+	if alias, ok := e.Aliases[name]; ok {
+		return alias
+	}
+
+	return name
 }
 
 // Get gets the value of the variable in the environment
@@ -120,15 +131,17 @@ func getFromMap(obj Object, key string) Object {
 
 // Set assigns the value of the variable in the environment
 func (e *Environment) Set(name string, val Object) Object {
-	n := name
-
-	if alias, ok := e.Aliases[n]; ok {
-		n = alias
-	}
+	n := e.resolveName(name)
 
 	e.store[n] = val
+	e.modified[n] = true
 
 	return val
+}
+
+// MarkModified records that the value of the variable was changed in place
+func (e *Environment) MarkModified(name string) {
+	e.modified[e.resolveName(name)] = true
 }
 
 // Remove remove name from the environment
@@ -142,6 +155,8 @@ func (e *Environment) Remove(name string) {
 	_, ok := e.store[n]
 	if ok {
 		delete(e.store, n)
+
+		e.modified[n] = true
 
 		return
 	}
@@ -164,15 +179,24 @@ func (e *Environment) Compact() {
 	}
 }
 
-// Apply assigns the environment field to the item
+// Apply assigns the modified environment fields to the item and deletes the removed ones,
+// the attributes that were not modified keep the value they have in the item
 func (e *Environment) Apply(item map[string]*types.Item, aliases map[string]string, exclude map[string]bool) {
-	for k, v := range e.store {
+	for k := range e.modified {
 		if _, ok := exclude[k]; ok {
 			continue
 		}
 
+		v, found := e.store[k]
+
 		if alias, ok := aliases[k]; ok {
 			k = alias
+		}
+
+		if !found {
+			delete(item, k)
+
+			continue
 		}
 
 		vItem := v.ToDynamoDB()
